@@ -216,6 +216,7 @@ Definition check17 (c : pxcase) : list nat :=
       ++ (if spec_isolation f steps observed then [] else [4%nat])
       ++ (if spec_removal f steps observed then [] else [5%nat])
       ++ (if spec_shutdown steps observed then [] else [6%nat])
+  | CProxyRed _ _ _ _ _ => []
   | CProxyE2E results =>
       if forallb (fun p => fst p =? snd p) results then [] else [7%nat]
   | CProxyFree pname buf icp names sent got drops clean =>
